@@ -1070,6 +1070,14 @@ def lower(fn: ast.FunctionDef, tuples: bool = True, ifexp: bool = True) -> ast.F
                 for binding in _unroll_bindings(st.target, _literal_elements(st.iter) or []) or []:
                     for b in st.body:
                         new.append(ast.fix_missing_locations(_Canon().visit(_Subst(binding).visit(copy.deepcopy(b)))))
+            elif tuples and isinstance(st, ast.Assign) and len(st.targets) == 1 and isinstance(st.targets[0], ast.Name) and isinstance(st.value, ast.Call) \
+                    and isinstance(st.value.func, ast.Attribute) and st.value.func.attr == "setdefault" and len(st.value.args) == 2 and not st.value.keywords \
+                    and all(is_pure_expr(x) for x in st.value.args) and is_pure_expr(st.value.func.value):
+                # x = d.setdefault(k, v)  ==  if k not in d: d[k] = v ; x = d[k]
+                d_, k_, v_ = st.value.func.value, st.value.args[0], st.value.args[1]
+                store = ast.Assign(targets=[ast.Subscript(value=copy.deepcopy(d_), slice=copy.deepcopy(k_), ctx=ast.Store())], value=v_)
+                new = [ast.copy_location(ast.If(test=ast.Compare(left=copy.deepcopy(k_), ops=[ast.NotIn()], comparators=[copy.deepcopy(d_)]), body=[ast.copy_location(store, st)], orelse=[]), st),
+                       ast.copy_location(ast.Assign(targets=st.targets, value=ast.Subscript(value=copy.deepcopy(d_), slice=copy.deepcopy(k_), ctx=ast.Load())), st)]
             elif tuples and isinstance(st, ast.Expr) and isinstance(st.value, ast.Call) and isinstance(st.value.func, ast.Attribute) \
                     and st.value.func.attr == "setdefault" and len(st.value.args) == 2 and not st.value.keywords \
                     and all(is_pure_expr(x) for x in st.value.args) and is_pure_expr(st.value.func.value):
@@ -1083,6 +1091,18 @@ def lower(fn: ast.FunctionDef, tuples: bool = True, ifexp: bool = True) -> ast.F
                     c.value = v
                     return c
                 new = [ast.copy_location(ast.If(test=st.value.test, body=[mk(st.value.body)], orelse=[mk(st.value.orelse)]), st)]
+            elif isinstance(st, ast.Return) and isinstance(st.value, ast.Tuple) and sum(isinstance(x, ast.IfExp) for x in st.value.elts) == 1 \
+                    and all(is_pure_expr(x) for x in st.value.elts if not isinstance(x, ast.IfExp)) \
+                    and is_pure_expr(next(x for x in st.value.elts if isinstance(x, ast.IfExp)).test):
+                # return (a, B if c else C)  ->  if c: return (a, B) else: return (a, C)
+                pos = next(i_ for i_, x in enumerate(st.value.elts) if isinstance(x, ast.IfExp))
+                ife = st.value.elts[pos]
+
+                def mkt(v: ast.expr) -> ast.stmt:
+                    c = copy.deepcopy(st)
+                    c.value.elts[pos] = v  # type: ignore[union-attr]
+                    return c
+                new = [ast.copy_location(ast.If(test=ife.test, body=[mkt(ife.body)], orelse=[mkt(ife.orelse)]), st)]
             elif isinstance(st, ast.Return) and isinstance(st.value, ast.IfExp):
                 new = [ast.copy_location(ast.If(test=st.value.test, body=[ast.copy_location(ast.Return(value=st.value.body), st)],
                                                 orelse=[ast.copy_location(ast.Return(value=st.value.orelse), st)]), st)]
